@@ -122,6 +122,7 @@ pub fn harnesses(prop: &str, tier: &str) -> Vec<Harness> {
         "C10" => c10(quick),
         "C11" => c11(quick),
         "C12" => c12(quick),
+        "C13" => c13(quick),
         "C14" => c14(quick),
         "C15" => c15(quick),
         "C16" => c16(quick),
@@ -486,6 +487,18 @@ fn c17(quick: bool) -> Vec<Harness> {
     )]
 }
 
+fn c13(quick: bool) -> Vec<Harness> {
+    let cases = crate::c13::cases(quick);
+    let n = cases.len();
+    vec![crate::casex::case_harness(
+        "posix-equivalence",
+        "C13",
+        cases,
+        crate::c13::run,
+        json!({"engine": "casex: encoder differential over simk + real-kernel differential", "cases": n, "parts": "A: 37 operation shapes issued on a regular and on a direct descriptor, submissions compared with each other and with an ABI table; builder settings (offsets {0,1,4095,4096,2^40,2^64-2}, send/recv flags, open options x mode x kind, socket/pipe kind, advise/allocate/truncate/sync/shutdown/listen/mkdir/unlink/rename) reflected in the submission. B: 16 real-kernel scenarios x {regular, direct}: read/readv and write/writev over offsets x lengths vs pread/pwrite (contents, counts, file position), open option combinations, mkdir/rmdir/rename/unlink, statx/ftruncate/fallocate/fsync, pool reads, TCP v4/v6 (bind, listen, accept, names, send, recv, sendmsg, zero-copy, shutdown, options, connect), UDP send_to/recv_from, Unix path and abstract names, pipe, splice, waitid, descriptor conversions and close"}),
+    )]
+}
+
 fn c11(quick: bool) -> Vec<Harness> {
     use crate::thworld::{C11Cfg, RingMode, c11};
     let mut v = Vec::new();
@@ -624,7 +637,7 @@ fn c01(quick: bool) -> Vec<Harness> {
     v
 }
 
-pub const ALL: &[&str] = &["C01", "C02", "C03", "C04", "C05", "C06", "C07", "C08", "C09", "C10", "C11", "C12", "C14", "C15", "C16", "C17", "C18"];
+pub const ALL: &[&str] = &["C01", "C02", "C03", "C04", "C05", "C06", "C07", "C08", "C09", "C10", "C11", "C12", "C13", "C14", "C15", "C16", "C17", "C18"];
 
 pub fn assumptions(prop: &str) -> Vec<String> {
     let mut v = vec![
